@@ -7,6 +7,8 @@ import (
 	"sync"
 	"sync/atomic"
 
+	"go.uber.org/zap"
+
 	"github.com/metal-toolbox/audito-maldito/internal/common"
 	"github.com/metal-toolbox/audito-maldito/processors/auditd"
 	"github.com/metal-toolbox/audito-maldito/processors/auditd/sessiontracker"
@@ -344,7 +346,11 @@ func checkC02(r *vlib.Run) int {
 		n := 3 + rng.Intn(8)
 		rec := vlib.NewRec()
 		rec.NoGid = true
-		tr := sessiontracker.NewSessionTracker(rec.Writer(), nil)
+		var lg *zap.SugaredLogger
+		if i%2 == 1 {
+			lg = debugLogger()
+		}
+		tr := sessiontracker.NewSessionTracker(rec.Writer(), lg)
 		spin := rng.Intn(4000)
 		var wg sync.WaitGroup
 		wg.Add(2)
